@@ -1243,6 +1243,26 @@ func ClientTrace(results []*Result, nOf func(Delivered) (int, bool)) []string {
 			sort.Strings(parts)
 			out = append(out, "pull "+r.Op.Sub+": "+strings.Join(parts, ","))
 		case "advance":
+		case "rpc":
+			cls := r.Resp
+			if r.Op.Rpc != nil && strings.HasPrefix(r.Op.Rpc.Kind, "list") {
+				// a listing: the names of the page, and whether there is a further page (the token itself is an id)
+				body := r.Body
+				if i := strings.LastIndex(body, "|next="); i >= 0 {
+					more := "more"
+					if body[i+6:] == "-" {
+						more = "end"
+					}
+					body = body[:i] + "|" + more
+				}
+				out = append(out, "rpc "+r.Op.Rpc.Kind+" "+r.Op.Rpc.Name+r.Op.Rpc.Project+" -> "+cls+" "+body)
+			} else {
+				kind := ""
+				if r.Op.Rpc != nil {
+					kind = r.Op.Rpc.Kind
+				}
+				out = append(out, "rpc "+kind+" -> "+cls)
+			}
 		default:
 			if !strings.HasPrefix(r.Op.K, "prune_") && r.Op.K != "expire_subs" && r.Op.K != "dl_sweep" {
 				cls := r.Resp
